@@ -281,7 +281,7 @@ func init() {
 			vc.nfresh++
 			// every element after sorting is one of the elements before (and vice versa); outside the slice nothing changes
 			st.assume(T_(sortBool, "(forall (("+q+" Int)) (! (=> (and (<= "+lo.S+" "+q+") (< "+q+" "+hi.S+")) (exists (("+r+" Int)) (and (<= "+lo.S+" "+r+") (< "+r+" "+hi.S+") (= (select "+newArr.S+" "+q+") (select "+oldArr.S+" "+r+"))))) :pattern ((select "+newArr.S+" "+q+"))))"))
-			st.assume(T_(sortBool, "(forall (("+q+" Int)) (! (=> (and (<= "+lo.S+" "+q+") (< "+q+" "+hi.S+")) (exists (("+r+" Int)) (and (<= "+lo.S+" "+r+") (< "+r+" "+hi.S+") (= (select "+oldArr.S+" "+q+") (select "+newArr.S+" "+r+"))))) :pattern ((select "+oldArr.S+" "+q+"))))"))
+			st.assume(T_(sortBool, "(forall (("+q+" Int)) (! (=> (and (<= "+lo.S+" "+q+") (< "+q+" "+hi.S+")) (exists (("+r+" Int)) (and (<= "+lo.S+" "+r+") (< "+r+" "+hi.S+") (= (select "+oldArr.S+" "+q+") (select "+newArr.S+" "+r+"))))) :pattern ((select "+patArr(oldArr, newArr).S+" "+q+"))))"))
 			st.assume(T_(sortBool, "(forall (("+q+" Int)) (! (=> (or (< "+q+" "+lo.S+") (>= "+q+" "+hi.S+")) (= (select "+newArr.S+" "+q+") (select "+oldArr.S+" "+q+"))) :pattern ((select "+newArr.S+" "+q+"))))"))
 			vc.setHeap(st, n, Store(vc.heap(st, n, h.Sort), sliceArr(s), newArr))
 			vc.note("sort.Sort permutes the slice in place (ordering itself is not modelled)")
@@ -404,4 +404,12 @@ func (vc *VC) gfGet(st *State, name string, ref *Term) *Term {
 
 func (vc *VC) gfSet(st *State, name string, ref, v *Term) {
 	vc.setHeap(st, "GF_"+name, Store(vc.gfHeap(st, name), ref, v))
+}
+
+// patArr: the array to use in a pattern: a itself when it is pattern-safe, otherwise the fallback.
+func patArr(a, fallback *Term) *Term {
+	if patternSafe(a.S) {
+		return a
+	}
+	return fallback
 }
